@@ -1,8 +1,94 @@
 import MetadorModel.Py.DrvLib
-/-! Driver stub (to be filled in). -/
-open MetadorModel
+import MetadorModel.Model.Diff
+/-! Driver for the directory-diff model (C18).
 
-def step (s : Unit) : List String → Unit × String
+`cmp <tree> <tree>` (prefix notation: `F <hex>` | `D <n> (<keyhex> <tree>)*n`, keys sorted)
+answers `empty T|F`; `nodes` lists the nodes in order as `path|status|prev|curr`;
+`get <path>` answers `get none` or `get <node>`; `apply` runs the in-order simulator. -/
+open MetadorModel MetadorModel.Diff MetadorModel.Drv
+
+partial def parseTree : List String → Option (DirTree × List String)
+  | "F" :: h :: rest => (unhexStr h).map (fun s => (.file s, rest))
+  | "D" :: n :: rest =>
+    match n.toNat? with
+    | none => none
+    | some n =>
+      let rec go (n : Nat) (acc : List (String × DirTree)) (toks : List String) : Option (DirTree × List String) :=
+        match n with
+        | 0 => some (.dir acc.reverse, toks)
+        | n + 1 =>
+          match toks with
+          | kh :: rest =>
+            match unhexStr kh, parseTree rest with
+            | some k, some (t, rest') => go n ((k, t) :: acc) rest'
+            | _, _ => none
+          | [] => none
+      go n [] rest
+  | _ => none
+
+partial def showTree : DirTree → String
+  | .file s => "f:" ++ hexStr s
+  | .dir es => "d{" ++ ",".intercalate (es.map fun (k, t) => hexStr k ++ "=" ++ showTree t) ++ "}"
+
+def showOpt : Option DirTree → String
+  | none => "-"
+  | some t => showTree t
+
+def showPath (p : Path) : String :=
+  if p.isEmpty then "." else "/".intercalate (p.map hexStr)
+
+def parsePath (s : String) : Option Path :=
+  if s == "." then some [] else (s.splitOn "/").mapM unhexStr
+
+def showStatus : Status → String
+  | .added => "+"
+  | .removed => "-"
+  | .modified => "~"
+  | .invalid => "?"
+
+def showRec (r : Rec) : String :=
+  s!"{showPath r.path}|{showStatus r.status}|{showOpt r.prev}|{showOpt r.curr}"
+
+structure St where
+  a : Option DirTree := none
+  b : Option DirTree := none
+  d : Option DNode := none
+
+partial def treeEq : DirTree → DirTree → Bool
+  | .file s, .file s' => s == s'
+  | .dir es, .dir fs => es.length == fs.length && (es.zip fs).all fun ((k, t), (k', t')) => k == k' && treeEq t t'
+  | _, _ => false
+
+def step (s : St) : List String → St × String
+  | "cmp" :: rest =>
+    match parseTree rest with
+    | some (a, rest') =>
+      match parseTree rest' with
+      | some (b, []) =>
+        if a.wf && b.wf then
+          let d := compare a b
+          ({ a := some a, b := some b, d := d }, "empty " ++ (if d.isNone then "T" else "F"))
+        else (s, "bad-op")
+      | _ => (s, "bad-op")
+    | none => (s, "bad-op")
+  | ["nodes"] =>
+    match s.a with
+    | some _ => (s, " ".intercalate ("nodes" :: (nodesO s.d).map showRec))
+    | none => (s, "bad-op")
+  | ["get", p] =>
+    match s.a, parsePath p with
+    | some _, some p =>
+      (s, match get s.d p with
+          | none => "get none"
+          | some n => "get " ++ showRec n.rec')
+    | _, _ => (s, "bad-op")
+  | ["apply"] =>
+    match s.a, s.b with
+    | some a, some b =>
+      (s, match applyAll a (nodesO s.d) with
+          | none => "apply fail"
+          | some t => if treeEq t b then "apply ok" else "apply other")
+    | _, _ => (s, "bad-op")
   | _ => (s, "bad-op")
 
-def main : IO Unit := Drv.run () step
+def main : IO Unit := Drv.run ({} : St) step
